@@ -13,6 +13,7 @@ import (
 	"github.com/scrapli/scrapligo/driver/network"
 	"github.com/scrapli/scrapligo/driver/opoptions"
 	"github.com/scrapli/scrapligo/driver/options"
+	"github.com/scrapli/scrapligo/platform"
 	"github.com/scrapli/scrapligo/transport"
 	"github.com/scrapli/scrapligo/util"
 
@@ -203,6 +204,49 @@ func buildNetworkOnOpen(c sessCfg) (*sess, error) {
 	var err error
 
 	s.nd, err = network.NewDriver("sim", o...)
+
+	return s, err
+}
+
+// stdPlatformYAML: a platform definition with the standard levels and the given on-open / on-close steps (YAML fragments).
+func stdPlatformYAML(desired, onOpen, onClose string) []byte {
+	var y strings.Builder
+
+	y.WriteString("---\nplatform-type: 'verifplat'\ndefault:\n  driver-type: 'network'\n  privilege-levels:\n")
+
+	for _, name := range []string{"exec", "privilege-exec", "configuration"} {
+		l := stdLevels()[name]
+		fmt.Fprintf(&y, "    %s:\n      name: '%s'\n      pattern: '%s'\n      previous-priv: '%s'\n      deescalate: '%s'\n      escalate: '%s'\n      escalate-auth: %v\n      escalate-prompt: '%s'\n",
+			name, name, l.Pattern, l.PreviousPriv, l.Deescalate, l.Escalate, l.EscalateAuth, l.EscalatePrompt)
+	}
+
+	fmt.Fprintf(&y, "  default-desired-privilege-level: '%s'\n", desired)
+
+	if onOpen != "" {
+		y.WriteString("  network-on-open:\n" + onOpen)
+	}
+
+	if onClose != "" {
+		y.WriteString("  network-on-close:\n" + onClose)
+	}
+
+	return []byte(y.String())
+}
+
+// buildPlatformOnOpen: not opened; a driver built from a platform definition whose on-open steps are what the shipped
+// definitions do: acquire the default level, then send preparation commands through the driver.
+func buildPlatformOnOpen(c sessCfg) (*sess, error) {
+	s := &sess{cli: stdCLI("exec")}
+	s.pipe = c.pipe(s.cli)
+	y := stdPlatformYAML("privilege-exec",
+		"    - operation: 'acquire-priv'\n    - operation: 'driver.send-command'\n      command: 'show z8'\n    - operation: 'driver.send-command'\n      command: 'show v7'\n", "")
+
+	p, err := platform.NewPlatform(y, "sim", append(c.base(s.pipe), options.WithAuthSecondary(stdSecret))...)
+	if err != nil {
+		return nil, err
+	}
+
+	s.nd, err = p.GetNetworkDriver()
 
 	return s, err
 }
@@ -425,6 +469,9 @@ func faultOps() []*faultOp {
 		{name: "n.open.onopen", openIsOp: true, build: buildNetworkOnOpen,
 			// Open of a network driver whose on-open hook escalates (what every platform definition does): a loss during the hook
 			// must make Open fail
+			run: func(s *sess, _ []util.Option, _ time.Duration) (string, error) { return "", s.nd.Open() }},
+		{name: "p.open.onopen", openIsOp: true, build: buildPlatformOnOpen,
+			// the same through a platform definition (acquire-priv, then two commands through the driver)
 			run: func(s *sess, _ []util.Option, _ time.Duration) (string, error) { return "", s.nd.Open() }},
 		{name: "g.sendcommand.chanlog", perOp: true, build: buildGenericChanLog,
 			run: func(s *sess, o []util.Option, _ time.Duration) (string, error) {
